@@ -54,10 +54,10 @@ def check(w):
         for o in obs2:
             if o["id"] in rej2:
                 v.violation({"kind": o["kind"], "changed": o["changed"], "refused": o["refused"], "dry_run": "n" in o["flags"], "sub": o["sub"], "missing": o["missing"],
-                             "layout": (o.get("scn") or {}).get("layout")},
+                             "layout": (o.get("scn") or {}).get("layout"), "argform": (o.get("scn") or {}).get("argform")},
                             {"scenario": o["scn"], "diff": o["diff"][:10], "errtext": o["errtext"], "requests": o["requests"]})
     # effectiveness: the same upload against a writable twin changes the module
-    key = lambda o: json.dumps([o["upload"], o["sub"], sorted(o["flags"]), o["transport"]])
+    key = lambda o: json.dumps([o["upload"], o["sub"], sorted(o["flags"]), o["transport"], (o.get("scn") or {}).get("argform")])
     changed_rw = {key(o) for o in obs if o["kind"] == "rw" and o["changed"]}
     ro = [o for o in obs if o["kind"] != "rw"]
     effective = sum(1 for o in ro if key(o) in changed_rw)
